@@ -175,6 +175,7 @@ func init() {
 			{Name: "grep", N: core.Const(ng+ng*(ng-1)/2+60, ng+ng*(ng-1)/2+700), Run: runGrep},
 			{Name: "grep-paired", N: core.Const(24, 120), Run: runGrepPaired},
 			{Name: "annotate", N: core.Const(na+na*(na-1)/2+40, na+na*(na-1)/2+400), Run: runAnnotate},
+			{Name: "annotate-selected", N: core.Const(24, 160), Run: runAnnotateSelected},
 			{Name: "annotate-dependent", N: core.Const(6, 18), Run: runAnnotateDependent},
 			{Name: "annotate-cut", N: core.Const(16, 80), Run: runCutFree},
 			{Name: "distribute", N: core.Const(24, 120), Run: runDistribute},
